@@ -105,12 +105,15 @@ type ProofSpec struct {
 
 // Op is one request.
 type Op struct {
-	Kind  string    `json:"kind"` // update
+	Kind  string    `json:"kind"` // update | plant (write Cp, cosigned by the harness with the witness keys TsAgo seconds ago, straight into storage)
+	TsAgo int64     `json:"ts_ago,omitempty"`
 	Log   int       `json:"log"`  // -1: an ID no log has
 	Cp    CpSpec    `json:"cp"`
 	Old   SizeSpec  `json:"old"`
 	Proof ProofSpec `json:"proof"`
 	Note  string    `json:"note,omitempty"` // generator's label for the op (class), informational
+	// Faults makes storage calls of this request fail (targets that support it).
+	Faults []FaultSpec `json:"faults,omitempty"`
 }
 
 // HistCase is a whole generated case.
@@ -224,6 +227,12 @@ func (e *Env) markSigned(label, text string) {
 		e.Signed[label] = m
 	}
 	m[text] = true
+}
+
+// SignedByLog reports whether the harness ever signed text with the key (material and
+// name) configured for log i.
+func (e *Env) SignedByLog(i int, text string) bool {
+	return e.Signed[e.Case.Logs[i].KeyLabel+"\x00"+e.LogKeys[i].Name][text]
 }
 
 // ---------------------------------------------------------------------------------
@@ -359,6 +368,8 @@ type Step struct {
 	Verdict string
 	Start   time.Time
 	End     time.Time
+	Fired   []string // injected faults that triggered during the request
+	Trace   []string // storage call points the request reached
 	// HTTP is set by targets that answer over HTTP.
 	HTTPStatus int
 	HTTPCType  string
@@ -372,8 +383,60 @@ type Target interface {
 	GetLogs() ([]string, error)
 }
 
-// WitnessTarget drives a real *witness.Witness.
-type WitnessTarget struct{ W *witness.Witness }
+// WitnessTarget drives a real *witness.Witness. IP, if set, is the instrumented
+// persistence the witness was built on.
+type WitnessTarget struct {
+	W  *witness.Witness
+	IP *IPersist
+	// P is the storage under the witness (for planting states a witness reaches by
+	// itself over time, e.g. a cosignature made yesterday).
+	P persistence.LogStatePersistence
+}
+
+// Plant writes raw as the stored checkpoint of logID, bypassing the witness.
+func (t WitnessTarget) Plant(logID string, raw []byte) error {
+	if t.P == nil {
+		return errors.New("target has no storage handle")
+	}
+	w, err := t.P.WriteOps(logID)
+	if err != nil {
+		return err
+	}
+	defer w.Close()
+	_, _ = w.GetLatest()
+	return w.Set(raw)
+}
+
+// Planter is implemented by targets whose storage can be written directly.
+type Planter interface {
+	Plant(logID string, raw []byte) error
+}
+
+// Armer is implemented by targets that can inject storage faults.
+type Armer interface {
+	Arm(fs []FaultSpec)
+	Disarm() (fired []string, reached []string)
+}
+
+// Arm implements Armer.
+func (t WitnessTarget) Arm(fs []FaultSpec) {
+	if t.IP != nil {
+		t.IP.Arm(fs...)
+	}
+}
+
+// Disarm implements Armer.
+func (t WitnessTarget) Disarm() ([]string, []string) {
+	if t.IP == nil {
+		return nil, nil
+	}
+	f := t.IP.FiredFaults()
+	t.IP.mu.Lock()
+	tr := append([]string{}, t.IP.Trace...)
+	t.IP.mu.Unlock()
+	t.IP.Disarm()
+	return f, tr
+}
 
 // Update implements Target.
 func (t WitnessTarget) Update(ctx context.Context, logID string, old uint64, cp []byte, proof [][]byte, st *Step) {
@@ -552,7 +615,7 @@ func (e *Env) Resolve(idx int, op Op, held Held) Req {
 				signKey = signKey.Renamed(cs.SignerName)
 			}
 			logLine = signKey.SigLine(text)
-			e.markSigned(signLabel, text)
+			e.markSigned(signLabel+"\x00"+signKey.Name, text)
 		}
 		var before, after []string
 		for xi, x := range cs.Extra {
@@ -566,7 +629,7 @@ func (e *Env) Resolve(idx int, op Op, held Held) Req {
 			case "otherlog":
 				if x.Key >= 0 && x.Key < len(e.LogKeys) && x.Key != r.LogIdx {
 					lines = append(lines, e.LogKeys[x.Key].SigLine(text))
-					e.markSigned(e.Case.Logs[x.Key].KeyLabel, text)
+					e.markSigned(e.Case.Logs[x.Key].KeyLabel+"\x00"+e.LogKeys[x.Key].Name, text)
 				}
 			case "duplog":
 				if logLine != "" {
@@ -947,9 +1010,43 @@ func (e *Env) Exec(t Target, o RunOpts) ([]*Step, error) {
 			}
 		}
 		st.Req = e.Resolve(i, op, st.PreHeld)
+		if op.Kind == "plant" {
+			pl, ok := t.(Planter)
+			if !ok || st.Req.LogIdx < 0 {
+				continue
+			}
+			text, sigs, ok := SplitNote(st.Req.Cp)
+			if !ok {
+				continue
+			}
+			var lines []string
+			for _, sg := range sigs {
+				lines = append(lines, sg.Line)
+			}
+			for _, wk := range e.WKeys {
+				if wk.Kind == WKCosig {
+					lines = append(lines, wk.K.CosigLine(text, uint64(time.Now().Unix()-op.TsAgo)))
+				} else {
+					lines = append(lines, wk.K.SigLine(text))
+				}
+			}
+			if err := pl.Plant(st.Req.LogID, Note(text, lines...)); err != nil {
+				return steps, fmt.Errorf("harness: plant failed: %v", err)
+			}
+			st.Verdict = "planted"
+			steps = append(steps, st)
+			continue
+		}
+		armer, _ := t.(Armer)
+		if armer != nil {
+			armer.Arm(op.Faults)
+		}
 		st.Start = time.Now()
 		t.Update(ctx, st.Req.LogID, st.Req.Old, st.Req.Cp, st.Req.Proof, st)
 		st.End = time.Now()
+		if armer != nil {
+			st.Fired, st.Trace = armer.Disarm()
+		}
 		if st.Verdict == VAccepted {
 			e.okProofs = append(e.okProofs, cloneProof(st.Req.Proof))
 		}
@@ -975,4 +1072,25 @@ func (e *Env) NewWitness() (*witness.Witness, persistence.LogStatePersistence, f
 		return nil, nil, nil, err
 	}
 	return w, p, closer, nil
+}
+
+// NewPlainTarget builds a real witness on fresh storage with a storage handle.
+func (e *Env) NewPlainTarget() (WitnessTarget, func(), error) {
+	w, p, closer, err := e.NewWitness()
+	if err != nil {
+		return WitnessTarget{}, nil, err
+	}
+	return WitnessTarget{W: w, P: p}, closer, nil
+}
+
+// NewInstrumentedWitness builds a real witness on fresh storage wrapped by IPersist.
+func (e *Env) NewInstrumentedWitness() (WitnessTarget, func(), error) {
+	p, closer := NewPersistence(e.Case.Storage)
+	ip := NewIPersist(p)
+	w, err := witness.New(witness.Opts{Persistence: ip, Signers: e.Signers(), KnownLogs: e.KnownLogs()})
+	if err != nil {
+		closer()
+		return WitnessTarget{}, nil, err
+	}
+	return WitnessTarget{W: w, IP: ip, P: p}, closer, nil
 }
